@@ -9,6 +9,7 @@ from gymnasium.spaces import Discrete, MultiDiscrete
 
 import core
 import mgr
+import poke
 import wire
 from oracle import scripted, Tape
 from stub_sim import StubSim, script_to_wire
@@ -121,6 +122,7 @@ def run_episode(kind, script, horizon, pm, tkind, tmpdir):
             trainer.policy_mapping_fn = fn
         else:
             trainer = cls(sim=manager, policies=policies, policy_mapping_fn=fn, **kw)
+    poke.rejected(trainer, [script, tkind, horizon], share=2)
     st, val = mgr.guarded(lambda: trainer.generate_episode(horizon=horizon), seconds=10)
     err = [] if st == "ok" else [st]
     if st == "ok":
